@@ -18,6 +18,8 @@ import traceback
 
 ROOT = os.path.dirname(os.path.dirname(os.path.abspath(__file__)))
 REPO = os.environ.get("VERIF_REPO", "/repo")
+# checks run against a scratch copy (mutation self-test) must not overwrite the evidence about /repo itself
+OUT = ROOT if not os.environ.get("VERIF_REPO") else os.path.join(ROOT, ".scratch")
 
 
 # ---------------------------------------------------------------------------------------------------------
@@ -241,7 +243,7 @@ def run_check(modname, tier="quick", seed=0, update_ledger=False, only_case=None
         lines.append("note: no ledger entry for this property (run `vcheck ledger`)")
 
     # replay every violation natively
-    replay_dir = os.path.join(ROOT, "replays", prop)
+    replay_dir = os.path.join(OUT, "replays", prop)
     violation_lines = []
     for r in violations:
         native = r.get("native")
@@ -314,8 +316,8 @@ def run_check(modname, tier="quick", seed=0, update_ledger=False, only_case=None
               assumptions=list(getattr(mod, "ASSUMPTIONS", [])) + list(getattr(mod, "TRUSTED", [])),
               wall_s=round(time.time() - t_start, 2), violations=len(violation_lines),
               known_findings=sorted(known_printed))
-    os.makedirs(os.path.join(ROOT, "evidence"), exist_ok=True)
-    json.dump(ev, open(os.path.join(ROOT, "evidence", f"{prop}.json"), "w"), indent=1, default=str)
+    os.makedirs(os.path.join(OUT, "evidence"), exist_ok=True)
+    json.dump(ev, open(os.path.join(OUT, "evidence", f"{prop}.json"), "w"), indent=1, default=str)
 
     for l in lines:
         print(l)
